@@ -182,25 +182,7 @@ Section MsBound.
   Qed.
 End MsBound.
 
-(* ---------- the tick set of a method ----------------------------------------- *)
-Definition meth_ticks (meth : tick_method) : Z -> Prop :=
-  match meth with
-  | TMillis stq => fun z => z mod (1000 * ms_step stq) = 0
-  | TUnit u sk => tickset u (skip_of sk)
-  end.
-
-Lemma meth_row e0 e1 m meth : tick_method_of e0 e1 m = Ok meth ->
-  exists gmin gmax, row_ok (meth_ticks meth) gmin gmax /\ gmax <= 2 * gmin.
-Proof.
-  intros EM. destruct (method_cases _ _ _ _ EM) as [[st ->]|[[sk ->]|(u & k & -> & I)]]; cbn [meth_ticks].
-  - pose proof (s_pos st). exists (1000 * ms_step st), (1000 * ms_step st).
-    split; [apply multiples_row; lia|lia].
-  - pose proof (skip_of_pos sk) as Hsk. eexists. eexists. split; [apply (year_row _ Hsk)|lia].
-  - assert (Hk : 1 <= k).
-    { unfold scale_methods in I. cbn [In] in I. repeat (destruct I as [[= <- <-]|I]); try lia; try contradiction. }
-    rewrite (skip_of_inject k Hk). apply table_rows. assumption.
-Qed.
-
+(* ---------- the tick set of a method (TickCountProofs.meth_ticks) -------------- *)
 Lemma meth_floor_max meth t r : valid t -> ms_resolution t -> nice_floor meth t = Ok r ->
   forall z, meth_ticks meth z -> z <= to_us t -> z <= to_us r.
 Proof.
@@ -229,11 +211,126 @@ Proof.
   specialize (Mn z Tz ltac:(lia)). lia.
 Qed.
 
-(* ---------- tnice_lt_two_ticks ------------------------------------------------ *)
-(* There is a g > 0 (the separation of the row tickMethod picks for the ORIGINAL
-   domain) such that all gaps of the original domain's ticks lie in [g, 2 g] and
-   nice() moves each end outward by less than 2 g: by less than two tick steps,
-   even counted in the smallest step. *)
+(* ---------- the niced ends are points of the row's tick set -------------------- *)
+Lemma aligned_ticks meth x : valid x -> aligned meth x -> meth_ticks meth (to_us x).
+Proof.
+  intros Vx A. destruct meth as [stq|u sk]; cbn [meth_ticks aligned] in *.
+  - destruct A as [M Dv]. unfold ms_resolution in M.
+    destruct (Z_le_gt_dec (qtrunc stq) 1) as [Q|Q].
+    + replace (Z.max 1 (qtrunc stq)) with 1 by lia. lia.
+    + replace (Z.max 1 (qtrunc stq)) with (qtrunc stq) by lia. specialize (Dv ltac:(lia)).
+      set (s := qtrunc stq) in *. clearbody s.
+      apply Z.mod_divide in M; [|lia]. destruct M as [q Eq]. rewrite Eq in *.
+      rewrite Z.div_mul in Dv by lia. apply Z.mod_divide in Dv; [|lia]. destruct Dv as [p ->].
+      replace (p * s * 1000) with (p * (1000 * s)) by ring. apply Z.mod_mul. lia.
+  - destruct A as [B N]. split; [assumption|]. rewrite (of_us_to_us x (valid_wf x Vx)). assumption.
+Qed.
+
+Lemma aligned_ms meth x : aligned meth x -> ms_resolution x.
+Proof.
+  destruct meth as [stq|u sk]; cbn [aligned]; intros [A _]; [assumption|].
+  unfold ms_resolution. apply (boundary_ms u). assumption.
+Qed.
+
+Lemma two_members (L : list Z) a b : In a L -> In b L -> a <> b -> (2 <= length L)%nat.
+Proof.
+  destruct L as [|x [|y L]]; cbn [In length]; intros Ia Ib N; try contradiction; [|lia].
+  destruct Ia as [<-|[]]. destruct Ib as [<-|[]]. congruence.
+Qed.
+
+(* ---------- the two halves, for an abstract row --------------------------------- *)
+Lemma nice_pair_moves meth gmin gmax lo hi a b :
+  row_ok (meth_ticks meth) gmin gmax ->
+  valid lo -> ms_resolution lo -> valid hi -> ms_resolution hi ->
+  nice_floor meth lo = Ok a -> nice_ceil meth hi = Ok b ->
+  to_us lo - to_us a < gmax /\ to_us b - to_us hi < gmax.
+Proof.
+  intros RO Vl Ml Vh Mh E1 E2.
+  pose proof (floor_move _ _ _ _ _ RO (meth_floor_max meth lo a Vl Ml E1)).
+  pose proof (ceil_move _ _ _ _ _ RO (meth_ceil_min meth hi b Vh Mh E2)). lia.
+Qed.
+
+Lemma niced_ticks meth gmin gmax nlo nhi t1 l' :
+  row_ok (meth_ticks meth) gmin gmax ->
+  valid nlo -> valid nhi -> aligned meth nlo -> aligned meth nhi -> to_us nlo <= to_us nhi ->
+  valid t1 -> to_us t1 = to_us nhi + 1000 -> ni_range meth nlo t1 = Ok l' ->
+  In (to_us nlo) (map to_us l') /\ In (to_us nhi) (map to_us l') /\
+  Sorted (fun x y => gmin <= to_us y - to_us x <= gmax) l' /\
+  (to_us nlo < to_us nhi -> (2 <= length l')%nat).
+Proof.
+  intros (Pg & _ & Sp & Dn) Vlo Vhi Alo Ahi Ord Vt1 Et1 R.
+  pose proof (aligned_ms _ _ Alo) as Mlo. pose proof (aligned_ms _ _ Ahi) as Mhi.
+  assert (Mt1 : ms_resolution t1) by (unfold ms_resolution in *; rewrite Et1; lia).
+  assert (EN : enumerates (meth_ticks meth) (to_us nlo) (to_us t1) (map to_us l')).
+  { destruct meth as [stq|u sk].
+    - exact (ms_range_enumerates _ _ _ _ Mlo Mt1 R).
+    - exact (range_enumerates _ _ _ _ _ Vlo Vt1 Mlo R). }
+  assert (Ilo : In (to_us nlo) (map to_us l')).
+  { apply (proj2 EN). split; [apply aligned_ticks; assumption|lia]. }
+  assert (Ihi : In (to_us nhi) (map to_us l')).
+  { apply (proj2 EN). split; [apply aligned_ticks; assumption|lia]. }
+  split; [assumption|]. split; [assumption|]. split.
+  - apply (Sorted_map_to_us (fun a b => gmin <= b - a <= gmax)).
+    exact (enum_gaps _ _ _ Sp Dn _ _ _ EN).
+  - intro Lt. rewrite <- (map_length to_us). apply (two_members _ _ _ Ilo Ihi). lia.
+Qed.
+
+(* the niced ends in increasing order *)
+Definition nice_lo (d0 d1 n0 n1 : dt) : dt := if to_us d1 <? to_us d0 then n1 else n0.
+Definition nice_hi (d0 d1 n0 n1 : dt) : dt := if to_us d1 <? to_us d0 then n0 else n1.
+
+(* ---------- tnice_row_bounds --------------------------------------------------- *)
+(* With (gmin, gmax) := meth_bounds meth, the bounds of the row tickMethod picks
+   for the ORIGINAL domain (TickCountProofs.meth_bounds, a function of the method;
+   no existential):
+   - 0 < gmin, gmax <= 2 gmin, every gap of the original domain's ticks in [gmin, gmax];
+   - each end moves outward by less than gmax;
+   - the ticks of the NICED domain under the same method (ni_range meth from the
+     lower new end to the upper new end + 1 ms, as TimeScale.ticks does) contain both
+     new ends - so there are at least two of them unless the niced domain is a
+     point - and their gaps lie in [gmin, gmax] too.
+   Hence each end moves by less than 2 * (any gap of the niced domain's ticks),
+   also when the original domain has fewer than two ticks. *)
+Theorem tnice_row_bounds d0 d1 m n0 n1 meth :
+  valid d0 -> valid d1 -> ms_resolution d0 -> ms_resolution d1 ->
+  ts_nice d0 d1 m = Ok (n0, n1) ->
+  tick_method_of (to_ms (dom_lo d0 d1)) (to_ms (dom_hi d0 d1)) m = Ok meth ->
+  0 < fst (meth_bounds meth) /\ snd (meth_bounds meth) <= 2 * fst (meth_bounds meth) /\
+  (forall l, ts_ticks d0 d1 m = Ok l ->
+     Sorted (fun x y => fst (meth_bounds meth) <= to_us y - to_us x <= snd (meth_bounds meth)) l) /\
+  (if to_us d1 <? to_us d0
+   then to_us d1 - to_us n1 < snd (meth_bounds meth) /\ to_us n0 - to_us d0 < snd (meth_bounds meth)
+   else to_us d0 - to_us n0 < snd (meth_bounds meth) /\ to_us n1 - to_us d1 < snd (meth_bounds meth)) /\
+  (forall t1 l', valid t1 -> to_us t1 = to_us (nice_hi d0 d1 n0 n1) + 1000 ->
+     ni_range meth (nice_lo d0 d1 n0 n1) t1 = Ok l' ->
+     In (to_us (nice_lo d0 d1 n0 n1)) (map to_us l') /\ In (to_us (nice_hi d0 d1 n0 n1)) (map to_us l') /\
+     Sorted (fun x y => fst (meth_bounds meth) <= to_us y - to_us x <= snd (meth_bounds meth)) l' /\
+     (to_us (nice_lo d0 d1 n0 n1) < to_us (nice_hi d0 d1 n0 n1) -> (2 <= length l')%nat)).
+Proof.
+  intros V0 V1 M0 M1 H EM.
+  destruct (meth_row_bounds _ _ _ _ EM) as [RO F].
+  destruct (ts_nice_spec d0 d1 m n0 n1 V0 V1 M0 M1 H) as (meth' & EM' & Vn0 & Vn1 & A0 & A1 & Out).
+  rewrite EM in EM'. injection EM' as <-.
+  split; [exact (proj1 RO)|]. split; [exact F|]. split; [|split].
+  - intros l Hl. exact (proj2 (ticks_row d0 d1 m l meth V0 V1 M0 M1 Hl EM)).
+  - unfold ts_nice in H. rewrite EM in H. unfold dt_ltb in H. destruct (to_us d1 <? to_us d0).
+    + apply rbind_ok in H. destruct H as (a & E1 & H).
+      apply rbind_ok in H. destruct H as (b & E2 & H). injection H as <- <-.
+      exact (nice_pair_moves meth _ _ d1 d0 a b RO V1 M1 V0 M0 E1 E2).
+    + apply rbind_ok in H. destruct H as (a & E1 & H).
+      apply rbind_ok in H. destruct H as (b & E2 & H). injection H as <- <-.
+      exact (nice_pair_moves meth _ _ d0 d1 a b RO V0 M0 V1 M1 E1 E2).
+  - intros t1 l' Vt1 Et1 R. unfold nice_lo, nice_hi in *.
+    destruct (to_us d1 <? to_us d0) eqn:C.
+    + apply (niced_ticks meth _ _ n1 n0 t1 l' RO); try assumption. lia.
+    + apply (niced_ticks meth _ _ n0 n1 t1 l' RO); try assumption. apply Z.ltb_ge in C. lia.
+Qed.
+
+(* ---------- tnice_lt_two_ticks (corollary) -------------------------------------- *)
+(* There is a g > 0 (the separation of the row) such that all gaps of the original
+   domain's ticks lie in [g, 2 g] and nice() moves each end outward by less than 2 g.
+   NOTE: when the original domain has fewer than two ticks the gap clause says
+   nothing; tnice_row_bounds above is the statement that does not depend on it. *)
 Theorem tnice_lt_two_ticks d0 d1 m n0 n1 :
   valid d0 -> valid d1 -> ms_resolution d0 -> ms_resolution d1 ->
   ts_nice d0 d1 m = Ok (n0, n1) ->
@@ -244,37 +341,14 @@ Theorem tnice_lt_two_ticks d0 d1 m n0 n1 :
      then to_us d1 - to_us n1 < 2 * g /\ to_us n0 - to_us d0 < 2 * g
      else to_us d0 - to_us n0 < 2 * g /\ to_us n1 - to_us d1 < 2 * g).
 Proof.
-  intros V0 V1 M0 M1 H. unfold ts_nice in H.
-  destruct (tick_method_of (to_ms (dom_lo d0 d1)) (to_ms (dom_hi d0 d1)) m) as [meth| |] eqn:EM;
-    try discriminate.
-  destruct (meth_row _ _ _ _ EM) as (gmin & gmax & RO & F).
-  pose proof RO as (Pg & _ & Sp & Dn).
-  exists gmin. split; [assumption|]. split.
-  - (* the gaps of the ticks *)
-    intros l Hl.
-    destruct (ts_ticks_run d0 d1 m l V0 V1 Hl) as (meth' & t1 & EM' & Vt1 & Et1 & R).
-    rewrite EM in EM'. injection EM' as <-.
-    destruct (dom_lo_hi d0 d1) as [Hle Hc].
-    assert (Vlo : valid (dom_lo d0 d1)) by (destruct Hc as [[-> _]|[-> _]]; assumption).
-    assert (Mlo : ms_resolution (dom_lo d0 d1)) by (destruct Hc as [[-> _]|[-> _]]; assumption).
-    assert (Mhi : ms_resolution (dom_hi d0 d1)) by (destruct Hc as [[_ ->]|[_ ->]]; assumption).
-    assert (Mt1 : ms_resolution t1) by (unfold ms_resolution in *; rewrite Et1; lia).
-    assert (EN : enumerates (meth_ticks meth) (to_us (dom_lo d0 d1)) (to_us t1) (map to_us l)).
-    { destruct meth as [stq|u sk]; cbn [meth_ticks].
-      - exact (ms_range_enumerates _ _ _ _ Mlo Mt1 R).
-      - exact (range_enumerates _ _ _ _ _ Vlo Vt1 Mlo R). }
-    apply (Sorted_map_to_us (fun a b => gmin <= b - a <= 2 * gmin)).
-    pose proof (enum_gaps _ gmin gmax Sp Dn _ _ _ EN) as G.
-    eapply Sorted_ind with (P := fun l => Sorted (fun a b => gmin <= b - a <= 2 * gmin) l) in G;
+  intros V0 V1 M0 M1 H.
+  destruct (ts_nice_spec d0 d1 m n0 n1 V0 V1 M0 M1 H) as (meth & EM & _).
+  destruct (tnice_row_bounds d0 d1 m n0 n1 meth V0 V1 M0 M1 H EM) as (Pg & F & G & Mv & _).
+  exists (fst (meth_bounds meth)). split; [assumption|]. split.
+  - intros l Hl. specialize (G l Hl).
+    eapply Sorted_ind with (P := fun l => Sorted (fun x y => fst (meth_bounds meth) <= to_us y - to_us x
+                                                          <= 2 * fst (meth_bounds meth)) l) in G;
       [exact G|constructor|].
-    intros a l' _ IH HR. constructor; [exact IH|]. destruct HR; constructor. lia.
-  - unfold dt_ltb in H. destruct (to_us d1 <? to_us d0) eqn:C.
-    + apply rbind_ok in H. destruct H as (a & E1 & H).
-      apply rbind_ok in H. destruct H as (b & E2 & H). injection H as <- <-.
-      pose proof (floor_move _ _ _ _ _ RO (meth_floor_max meth d1 a V1 M1 E1)).
-      pose proof (ceil_move _ _ _ _ _ RO (meth_ceil_min meth d0 b V0 M0 E2)). lia.
-    + apply rbind_ok in H. destruct H as (a & E1 & H).
-      apply rbind_ok in H. destruct H as (b & E2 & H). injection H as <- <-.
-      pose proof (floor_move _ _ _ _ _ RO (meth_floor_max meth d0 a V0 M0 E1)).
-      pose proof (ceil_move _ _ _ _ _ RO (meth_ceil_min meth d1 b V1 M1 E2)). lia.
+    intros a l0 _ IH HR. constructor; [exact IH|]. destruct HR; constructor. lia.
+  - destruct (to_us d1 <? to_us d0); lia.
 Qed.
